@@ -270,6 +270,8 @@ class Engine:
             if getattr(val, 'vterm', None) is None:
                 val.vterm = smt.fresh('fn', V)
             ctx.assume(smt.truthy(val.vterm), val.vterm != NONE)
+            if self.ext is not None and self.ext.counter_atom is not None:
+                ctx.assume(val.vterm != self.ext.counter_atom)
             return val.vterm
         if isinstance(val, Ref):
             sv = self.load(ctx, val)
